@@ -31,10 +31,23 @@ def _job(args):
     prop, idx, obname, payload, tier, seed = args
     from . import api
     t0 = time.time()
+    import signal
+    from .alg import Undecided
+
+    def _alarm(signum, frame):
+        raise Undecided("per-obligation time budget exceeded")
+    budget = int(os.environ.get("VF_OB_BUDGET", "900" if tier == 'thorough' else "150"))
     try:
+        signal.signal(signal.SIGALRM, _alarm)
+        signal.alarm(budget)
         item = api.REGISTRY[prop][idx]
         out = RUNNERS[item.kind](item, obname, payload, tier, seed)
+        signal.alarm(0)
+    except Undecided as e:
+        signal.alarm(0)
+        out = {"name": obname, "engine": getattr(api.REGISTRY[prop][idx], 'kind', '?'), "status": "undecided", "detail": str(e)}
     except Exception as e:   # a crash of the machinery is never a verdict
+        signal.alarm(0)
         out = {"name": obname, "engine": "?", "status": "error",
                "detail": f"{type(e).__name__}: {e}\n{traceback.format_exc(limit=10)}"}
     out["wall_s"] = round(time.time() - t0, 3)
@@ -116,6 +129,14 @@ class BReport:
             self.distinct.add(key if key is not None else self.evaluations)
         if sample is not None and len(self.samples) < 3:
             self.samples.append(sample)
+
+    def attempt(self, clause, inputs, fn):
+        """run fn(); an exception raised by the code under test on a valid input is a failure of `clause`"""
+        try:
+            return fn()
+        except Exception as e:
+            self.fail(clause, f"raised {type(e).__name__}: {e}", inputs)
+            return None
 
     def fail(self, clause, detail, inputs):
         if len(self.failures) < 5:
@@ -312,7 +333,7 @@ def _collate(prop, tier, a, items, results, t0):
             if confirmed:
                 path = _write_replay(prop, name, out, confirmed[0], confirmed[1], out.get("inputs"), "failing-input")
                 violations.append((name, path, False))
-            elif led.get(name, {}).get("status") == 'proved' or not led:
+            elif led.get(name, {}).get("status") == 'proved':
                 path = _write_replay(prop, name, out, None, out.get("detail"), None, "obligation-failed")
                 violations.append((name, path, True))
             else:
